@@ -65,6 +65,9 @@ func loadSTLAscii(file *os.File) ([]*sdf.Triangle3, error) {
 			v = append(v, v3.Vec{f[0], f[1], f[2]})
 		}
 	}
+	if len(v)%3 != 0 {
+		return nil, fmt.Errorf("number of vertices (%d) is not a multiple of 3", len(v))
+	}
 	// make triangles out of every 3 vertices
 	var mesh []*sdf.Triangle3
 	for i := 0; i < len(v); i += 3 {
